@@ -1654,6 +1654,12 @@ static size_t produceResultArrayBinary(scpi_t * context, const void * array, siz
                 return 0;
         }
 
+        if (count == 0) {
+            /* empty block is complete without any data - count it as result */
+            result += SCPI_ResultArbitraryBlockData(context, array, 0);
+            return result;
+        }
+
         switch (item_size) {
             case 1:
                 result += SCPI_ResultArbitraryBlockData(context, array, count);
